@@ -55,7 +55,7 @@ func (c04Checker) Meta() CheckerMeta {
 		Real:        []string{"pongo2 package (compile once; Execute, ExecuteBytes, ExecuteWriter, ExecuteWriterUnbuffered, ExecuteBlocks; every tag/filter the generator writes)", "pongo2.FSLoader / HttpFilesystemLoader over the simulated disk"},
 		Stub:        []string{"caller's io.Writer", "context call-backs (fault points)", "template files (in-memory disk)", "virtual TemplateLoader"},
 		Assumptions: []string{"constructs documented to depend on clock, randomness or map order are not generated (now without fake, lorem random, random filter, unsorted map loops)", "the static half of the quantifier (all reachable writes) is not attempted"},
-		QuickRuns:   6000, QuickRace: 0,
+		QuickRuns:   10000, QuickRace: 0,
 	}
 }
 
